@@ -182,7 +182,10 @@ func checkC18(c *Ctx, e *Env) {
 				if strings.HasPrefix(f, "+StrEq(") && strings.Contains(f, fee.Name+".Fee.Denom") && strings.Contains(f, "req.Fee") {
 					okDenom = true
 				}
-				if strings.HasPrefix(f, "-Lt0(") && strings.Contains(f, "-"+req) && strings.Contains(f, "req.Fee") {
+				// the OFFERED amount covers the fee: not (offer − required < 0). The balance fact below also
+				// mentions req.Fee (through the denomination) and must not pass for this one — the automatic
+				// mutation sweep of round 7 deleted the IsGTE guard and the rule stayed quiet
+				if strings.HasPrefix(f, "-Lt0(") && strings.Contains(f, "-"+req) && offeredAmount.MatchString(f) && !strings.Contains(f, "bankbal(") {
 					okGTE = true
 				}
 				if strings.HasPrefix(f, "-Lt0(bankbal("+signer+",") && strings.Contains(f, "-"+req) {
@@ -1134,3 +1137,6 @@ func ruleNoUnconditionalRejection(c *Ctx, m *Model, r *E1, validators map[string
 	}
 	c.Count("parameter_rejections_judged_constant", nJudged)
 }
+
+// offeredAmount: the amount of the fee the request offers (MsgCreateClass.Fee is one coin, MsgCreate.Fee a list).
+var offeredAmount = regexp.MustCompile(`intfield\(\*?req\.Fee(\[[^\]]*\])?\.Amount\)`)
